@@ -214,6 +214,11 @@ func realNonceMaterial(c *ctx) {
 						if c.r.intn(4) == 0 {
 							piv[0] = 0 // leading zero bytes are part of the header value
 						}
+						if vr[1] <= 3 && round == 0 {
+							for j := range piv {
+								piv[j] = 0 // sequence number zero
+							}
+						}
 						unprot[iana.HeaderParameterPartialIV] = append([]byte{}, piv...)
 						label = iana.HeaderParameterPartialIV
 					case 1:
